@@ -88,6 +88,7 @@ type baseAttr struct {
 var baseAttrs = map[int]baseAttr{
 	1: {0, "bip84", 8, false}, 2: {0, "bip84", 4, false}, 3: {0, "bip86", 2, false},
 	4: {1, "bip84", 1, false}, 5: {0, "bip84", 16, true}, 6: {0, "bip86", 32, false},
+	7: {0, "bip49", 64, false}, 8: {0, "bip44", 128, false},
 }
 
 var scopeOf = map[string]waddrmgr.KeyScope{"bip84": waddrmgr.KeyScopeBIP0084, "bip86": waddrmgr.KeyScopeBIP0086,
@@ -245,7 +246,8 @@ func (w *spWorld) setup() error {
 	if err := e.w.Unlock(privPass, nil); err != nil {
 		return err
 	}
-	for _, sc := range []waddrmgr.KeyScope{waddrmgr.KeyScopeBIP0084, waddrmgr.KeyScopeBIP0086} {
+	for _, sc := range []waddrmgr.KeyScope{waddrmgr.KeyScopeBIP0084, waddrmgr.KeyScopeBIP0086,
+		waddrmgr.KeyScopeBIP0049Plus, waddrmgr.KeyScopeBIP0044} {
 		if _, err := e.w.NextAccount(sc, "second"); err != nil {
 			return fmt.Errorf("NextAccount: %w", err)
 		}
